@@ -38,6 +38,9 @@ def apply_edit(entry, current=None):
     edits = entry.get("edits") or [(entry["old"], entry["new"])]
     for old, new in edits:
         n = src.count(old)
+        if entry.get("replace_all") and n >= 1:
+            src = src.replace(old, new)
+            continue
         if n != 1:
             raise LookupError(f"anchor text occurs {n} times in {entry['file']}: {old!r}")
         src = src.replace(old, new)
